@@ -60,6 +60,7 @@ func (core *JApiCore) getIncludedFilePath(keyword *scanner.Lexeme) (string, *jer
 	// We included file path is always will be relative to currently scanned file
 	// directory.
 	absolutePath := filepath.Join(filepath.Dir(core.scanner.File().Name()), path)
+	verifObserveFileAccess("stat", absolutePath)
 	info, err := os.Stat(absolutePath)
 	if err == nil {
 		if info.IsDir() {
@@ -75,6 +76,7 @@ func (core *JApiCore) getIncludedFilePath(keyword *scanner.Lexeme) (string, *jer
 }
 
 func readFile(p string) (*fs.File, error) {
+	verifObserveFileAccess("read", p)
 	c, err := os.ReadFile(p)
 	if err != nil {
 		return nil, err
